@@ -81,8 +81,10 @@ func kinds() []kind {
 				return err, s
 			}}
 		}},
-		{name: "STATUS b", lines: 1, data: []string{"* STATUS b (MESSAGES 7)"}, want: "b:7", issue: func(c *imapclient.Client) handle {
-			cmd := c.Status("b", st)
+		// a second mailbox whose name differs from the first one by case only (names other than INBOX
+		// are case-sensitive: two mailboxes, two unambiguous commands)
+		{name: "STATUS A", lines: 1, data: []string{"* STATUS A (MESSAGES 7)"}, want: "A:7", issue: func(c *imapclient.Client) handle {
+			cmd := c.Status("A", st)
 			return handle{func() (error, string) {
 				d, err := cmd.Wait()
 				s := ""
